@@ -176,7 +176,9 @@ def linkCfiM (w : World) (a : Arch) (mask : Nat) (mem : Mem) (st : MState) (e : 
          | some got => got.map (maskOf a mask) == e.fp && e.fp.isSome
          | none =>
            -- forwarded — except on ARM/ARM64 above a frame-pointer frame (alias names, F28)
-           if (a == .arm || a == .arm64 || a == .arm64old) && st.prevFp then e.fp.isNone
+           -- (what the property asks for — the forwarded value — is admitted too: that is the
+           -- directed corpus case of the known finding)
+           if (a == .arm || a == .arm64 || a == .arm64old) && st.prevFp then e.fp.isNone || e.fp == st.fp
            else e.fp == st.fp) &&
         regsFrom st.regs e.regs (fun r => if r = a.fpName then none else slot r)
 
